@@ -260,6 +260,7 @@ def check_case(case, res: Result):
                     break
         log = list(rig.cmdlog)
         declared = [list(o) for o in rig.uod.overlapping_command_names_lists]
+        error_ticks = {e[0] for e in rig.errors}       # ticks in which Engine.set_error_state was called (classifier only)
         end_tick = rig.k
         end_state = rig.state
         leftover = sorted(rig.uod.command_instances)
@@ -474,6 +475,21 @@ def check_case(case, res: Result):
     def in_burst(involved):
         return any(i in ids for ids in burst.values() for i in involved)
 
+    # (e) a request left without instance by an aborted command-manager loop: it was dequeued in tick tq together with a
+    #     newer Fail request; Fail (newest first) raised in its exec, the exception left the loop over the executing list
+    #     before this request was started; a Stop/Restart dequeued in the next tick runs its cancel phase first (cancel "by
+    #     name" finds no instance and leaves the request), then the request starts - after the cancel phase
+    pending_after_abort = set()
+    for i in order:
+        tq = req_ticks.get(i, [])
+        if len(tq) == 1 and tq[0] in error_ticks and per[i][0][1] == "init" and per[i][0][0] > tq[0] \
+                and per[i][0][0] in ctl_ticks \
+                and any(e[0] == tq[0] and e[1] == "exec" and e[2] == "Fail" and e[3] != i and e[4] >= case["fail_at"]
+                        for e in log):
+            pending_after_abort.add(i)
+    leaked_pending = [(name_of[i], st) for st in stop_ticks for i in pending_after_abort
+                      if per[i][0][0] <= st and (fin_tick(i) is None or fin_tick(i) > st)]
+
     seen = set()
     unjudged = bool(user_iids & set(order))
     for mech, msg, involved, vtick in raw:
@@ -484,11 +500,20 @@ def check_case(case, res: Result):
             if any(i in user_cancel_failed for i in involved):
                 res.count("unjudged_user_issued_command_cancel_aborted_before_finalize")
             continue
+        lone = lone_request_pair(involved, vtick)
+        if lone and in_burst(involved) and not any(i in stop_race for i in involved):
+            res.count("lone_request_pair_violations_kept_out_of_burst_class")
         if any(i in stop_race for i in involved):
             # (d) a UOD request queued before a Stop/Restart of the same tick survives the Stop's cancel phase
             mech = "C11.request_queued_before_stop_in_same_tick"
-        elif in_burst(involved) and not lone_request_pair(involved, vtick):
+        elif in_burst(involved) and not lone:
             mech = "C11.conflicting_requests_in_one_tick"
+        elif any(i in pending_after_abort for i in involved) or (
+                involved and leaked_pending and all(
+                    any(conflicts(name_of[i], ln) and per[i][0][0] > lt for ln, lt in leaked_pending)
+                    for i in involved if i in name_of)):
+            # (e) and its cascade (the surviving instance is re-used by name by later requests, as in (d'))
+            mech = "C11.request_left_pending_by_failed_tick_starts_after_stop_cancel_phase"
         elif any(i in dup_req for i in involved):
             # (c) two CommandRequests were scheduled under one instance id: visit_UodCommandNode takes
             #     record.last_instance_id instead of the id created for its own visit, so two interpreter paths walking
